@@ -90,6 +90,29 @@ func genC20Plan(r *zsim.Rng) *sysPlan {
 	if r.Chance(1, 3) {
 		p.GenProc = []procSpec{{Chunks: []int{r.Range(1, 50)}, DelaysMs: []int{[]int{0, 20, 200, 600}[r.Intn(4)]}}}
 	}
+	// streamed input with --tail: the records arrive in stages while the user is at work; what falls out of the
+	// window takes its selection mark with it - the selection changes without a key (wave 18)
+	feeds := 0
+	tailAim := false
+	if n >= 4 && r.Chance(1, 4) {
+		feeds = r.Range(1, 2)
+		left := n
+		for i := 0; i < feeds; i++ {
+			k := r.Range(2, maxInt(2, left/2))
+			p.Stages = append(p.Stages, k)
+			left -= k
+		}
+		p.Tail = r.Range(1, n-1)
+		p.Multi = -1
+		if r.Chance(2, 3) {
+			p.Args = append(p.Args, "--track")
+			if k := p.Stages[0]; r.Bool() && n-k+1 <= n-1 {
+				// aim: the last record of the first stage stays in the window, the first one does not
+				p.Tail = r.Range(n-k+1, n-1)
+				tailAim = true
+			}
+		}
+	}
 	tmpl := "PV " + c20Template
 	if r.Chance(1, 6) {
 		tmpl = "PV {f} " + c20Template
@@ -182,7 +205,22 @@ func genC20Plan(r *zsim.Rng) *sysPlan {
 	}
 	p.Events = append(p.Events, sysEvent{Kind: "settle"})
 	nev := r.Range(1, 30)
+	if tailAim {
+		// mark the oldest record, go to the newest, then the rest of the input arrives
+		nev = r.Range(0, 6)
+		p.Events = append(p.Events, sysEvent{Kind: "keys", Keys: "alt-c"}, sysEvent{Kind: "keys", Keys: "alt-e"}, sysEvent{Kind: "keys", Keys: "alt-d"}, sysEvent{Kind: "settle"})
+		for ; feeds > 0; feeds-- {
+			p.Events = append(p.Events, sysEvent{Kind: "feed", DelayMs: r.Intn(30)}, sysEvent{Kind: "settle"})
+		}
+	}
 	for i := 0; i < nev; i++ {
+		if feeds > 0 && r.Chance(feeds, nev-i) {
+			feeds--
+			p.Events = append(p.Events, sysEvent{Kind: "feed", DelayMs: r.Intn(30)})
+			if r.Bool() {
+				p.Events = append(p.Events, sysEvent{Kind: "settle"})
+			}
+		}
 		ev := sysEvent{Kind: "keys", DelayMs: []int{0, 0, 5, 40, 99, 130, 480, 520, 700, 1500}[r.Intn(10)]}
 		switch k := r.Intn(10); {
 		case k < 6:
@@ -210,6 +248,9 @@ func genC20Plan(r *zsim.Rng) *sysPlan {
 			sysEvent{Kind: "keys", Keys: pick(r, "alt-a", "alt-b", "alt-d", "alt-c")}, sysEvent{Kind: "settle"},
 			sysEvent{Kind: "keys", Keys: pick(r, "alt-3", "alt-3", "alt-2")},
 			sysEvent{Kind: "resize", Cols: r.Range(41, 120), Rows: r.Range(10, 40), DelayMs: r.Range(100, 800)})
+	}
+	for ; feeds > 0; feeds-- {
+		p.Events = append(p.Events, sysEvent{Kind: "feed", DelayMs: r.Intn(30)})
 	}
 	p.Events = append(p.Events, sysEvent{Kind: "settle"})
 	end := sysEvent{Kind: "keys", DelayMs: []int{0, 10, 200, 520}[r.Intn(4)], Keys: pick(r, "enter", "esc", "ctrl-c")}
